@@ -1,6 +1,7 @@
 package props
 
 import (
+	"strings"
 	"testing"
 
 	"exoverif/sim"
@@ -174,16 +175,12 @@ func init() {
 
 // authDynamic keeps the AVS part of the state moving (see avsDynamic) without starving the rest.
 func authDynamic(m *Machine, w map[string]int) map[string]int {
-	out := map[string]int{}
+	out := avsDynamic(m, w)
+	// the non-AVS entry points keep their share
 	for k, v := range w {
-		out[k] = v
-	}
-	v := m.avsView()
-	if len(v.avs) == 0 {
-		out["avsRegister"] *= 3
-	}
-	if len(v.tasks) == 0 {
-		out["avsTask"] *= 2
+		if !strings.HasPrefix(k, "avs") && k != "nextBlock" {
+			out[k] = v
+		}
 	}
 	return out
 }
